@@ -37,7 +37,10 @@ def eval_word(case):
             if bool(got) != exp:
                 fails.append("is_valid_release_%s(%r) = %s, documented grammar says %s" % (name, w, got, exp))
         for args, exp, what in (((w, "1", "ga"), case["short"], "short"), (("a", w, "ga"), case["version"], "version"),
-                                (("a", "1", w), case["short"], "type")):
+                                (("a", "1", w), case["short"], "type"),
+                                (("a", "1", "ga", w, "1", "ga"), case["short"] or w == "", "base-product short"),
+                                (("a", "1", "ga", "b", w, "ga"), case["version"], "base-product version"),
+                                (("a", "1", "ga", "b", "1", w), case["short"], "base-product type")):
             try:
                 rid = C.create_release_id(*args)
                 ok = True
@@ -74,6 +77,16 @@ def eval_id(case):
         return fails + ["parse_release_id(%r) raised %s: %s (created from %r)" % (rid, type(exc).__name__, exc, tuple(args))]
     if got != exp:
         fails.append("parse_release_id(create_release_id%r = %r) = %s" % (tuple(args), rid, got))
+    if x["bp"]:
+        # the same process then parses the release part alone: the result must not depend on what was parsed before
+        main = rid.split("@")[0]
+        exp1 = {"short": x["short"], "version": x["version"], "type": x["type"]}
+        try:
+            got1 = C.parse_release_id(main)
+        except Exception as exc:
+            return fails + ["parse_release_id(%r) raised %s after parsing %r" % (main, exc, rid)]
+        if got1 != exp1 and not ("-" in x["short"] and x["type"] == "ga"):
+            fails.append("parse_release_id(%r) = %s when called after parse_release_id(%r)" % (main, got1, rid))
     return fails
 
 
